@@ -120,6 +120,9 @@ pub struct Sched {
     pub on_quiescent: Vec<Box<dyn FnMut(&mut Sched)>>,
     schedule: Vec<usize>,
     pub replay_error: Option<String>,
+    /// set by an environment action: `run` returns so that the (async) caller can advance virtual
+    /// time by this much and call `run` again
+    pub pause_request: Option<std::time::Duration>,
 }
 
 impl Sched {
@@ -141,6 +144,7 @@ impl Sched {
             on_quiescent: vec![],
             schedule,
             replay_error: None,
+            pause_request: None,
         }
     }
 
@@ -252,6 +256,9 @@ impl Sched {
     pub fn run(&mut self) {
         self.collect_spawned();
         loop {
+            if self.pause_request.is_some() {
+                return;
+            }
             if self.steps >= self.horizon {
                 self.livelock = true;
                 break;
